@@ -8,7 +8,7 @@ PLAN = dict(
          "EncryptBlocks/DecryptBlocks interface, structured blocks planted at rotating lanes, every output block compared "
          "individually with the reference; keysize: every key length 0..64. Distinct = distinct class keys "
          "(configuration | path / pattern class / batch size / alias mode / guard side)",
-    jobs=both("c02.block", _CFG, shards=(2, 4), floor=100) + both("c02.batch", _CFG, shards=(2, 4), floor=100)
+    jobs=both("c02.block", _CFG, shards=(2, 12), floor=100) + both("c02.batch", _CFG, shards=(2, 12), floor=100)
     + both("c02.keysize", _CFG, shards=(1, 1), floor=10),
     assumptions=["reference SM4 in harness/ref/sm4 (GB/T 32907 annex A example 1 at every child start, the 1 000 000-iteration "
                  "example 2 in shard 0 of every job)"],
